@@ -65,8 +65,11 @@ def _unit(args):
     repo, name, text, types, prop, budget, es = args
     os.environ.setdefault('VERIF_JOBS', '1')
     try:
-        res = R.check_generated_unit(repo, name, text, types, pool_types(), prop, budget, jobs=1,
-                                     only=lambda q: ('get_byte_size' in q) or any(('code<%s>' % e) in q for e in es),
+        if prop == 'C18':
+            only = lambda q: q.endswith('::print')
+        else:
+            only = lambda q: ('get_byte_size' in q) or any(('code<%s>' % e) in q for e in es)
+        res = R.check_generated_unit(repo, name, text, types, pool_types(), prop, budget, jobs=1, only=only,
                                      verify_pool=(name == 'g0'))
     except Exception as e:
         return [{'contract': 'c++ generated unit %s' % name, 'status': 'error', 'reason': repr(e)[-1500:], 'obligations': [],
@@ -128,3 +131,14 @@ def C03(repo):
 
 def C19(repo):
     return header(repo, 'C19')
+
+
+def C18(repo):
+    try:
+        res = R.check_print_header(repo, timeout_ms=_budget(), jobs=int(os.environ.get('VERIF_JOBS', '16')))
+    except Exception as e:
+        res = [{'contract': 'c++ printer driver', 'status': 'error', 'reason': repr(e)[-1500:], 'obligations': [],
+                'props': ['C18']}]
+    for r in res:
+        r['layer'] = 'header'
+    return res + generated(repo, 'C18')
